@@ -19,6 +19,7 @@ type DocSpec struct {
 	Text    string `json:"text,omitempty"` // JSON text
 	Name    string `json:"name,omitempty"` // typed document name
 	CapSeed uint64 `json:"cap_seed"`
+	GoNums  uint64 `json:"go_nums,omitempty"` // != 0: some integral number leaves become int / int64 / float32 / json.Number (hand-built documents)
 }
 
 const spareSentinel = "\x00SPARE"
@@ -71,6 +72,52 @@ func buildJSON(text string, capSeed uint64) (interface{}, error) {
 	return re(v), nil
 }
 
+// goNums turns some integral float64 leaves into other Go number types, as in a document
+// a caller built by hand instead of decoding JSON. Containers are edited in place (they
+// were freshly built); the choice depends only on (seed, visiting order with sorted keys).
+func goNums(v interface{}, seed uint64) interface{} {
+	ctr := uint64(0)
+	var re func(v interface{}) interface{}
+	re = func(v interface{}) interface{} {
+		switch x := v.(type) {
+		case float64:
+			ctr++
+			if x != float64(int64(x)) || x > 1e15 || x < -1e15 {
+				return v
+			}
+			switch simrt.Mix(seed, ctr) % 6 {
+			case 0:
+				return int(x)
+			case 1:
+				return int64(x)
+			case 2:
+				return float32(x)
+			case 3:
+				return json.Number(fmt.Sprintf("%d", int64(x)))
+			}
+			return v
+		case []interface{}:
+			full := x[:cap(x)]
+			for i := range x {
+				full[i] = re(x[i])
+			}
+			return x
+		case map[string]interface{}:
+			keys := make([]string, 0, len(x))
+			for k := range x {
+				keys = append(keys, k)
+			}
+			sort.Strings(keys)
+			for _, k := range keys {
+				x[k] = re(x[k])
+			}
+			return x
+		}
+		return v
+	}
+	return re(v)
+}
+
 // ---- typed documents (reflection paths of the interpreter) ----
 
 type TObj struct {
@@ -116,6 +163,26 @@ func buildTyped(name string, seed uint64) interface{} {
 		return mk()
 	case "tdoc-val":
 		return *mk()
+	case "tdoc-shadow":
+		// function-local types print as main.TObj / main.TDoc too, with another layout:
+		// anything keyed by the type's NAME confuses them with the package-level types
+		type TObj struct {
+			T []int
+			S float64
+			K string
+		}
+		type TDoc struct {
+			N     string
+			S     float64
+			Objs  []TObj
+			P     *TObj
+			Nums  []string
+			Strs  []float64
+			NilP  *TObj
+			PObjs []*TObj
+		}
+		return &TDoc{N: "invoice", S: 42, Objs: []TObj{{[]int{7}, 1.5, "kk"}, {nil, 2.5, "ll"}}, P: &TObj{[]int{1}, 9, "pk"}, Nums: []string{"x", "y"}, Strs: []float64{3, 1, 2},
+			PObjs: []*TObj{{[]int{5}, 3, "q"}}}
 	case "tslice":
 		return []TObj{{3, "c", []int{1}}, {1, "a", nil}, {2, "b", []int{5, 4}}}
 	case "tmap":
@@ -177,7 +244,7 @@ func mkTDocSeeded(seed uint64) *TDoc {
 	return d
 }
 
-var typedDocNames = []string{"tdoc-ptr", "tdoc-val", "tslice", "tmap"}
+var typedDocNames = []string{"tdoc-ptr", "tdoc-val", "tslice", "tmap", "tdoc-shadow"}
 
 // typedFnExprs: every array-taking built-in on every typed (non-[]interface{}) field.
 func init() {
@@ -198,6 +265,7 @@ var typedExprs = []string{
 	"[*].k", "[?k > `1`]", "[0].t", "[::-1]", "[]", "@[0].s", "length(@)",
 	"grid[]", "grid[][]", "grid[0]", "grid[*][0]", "grid[?@]", "to_number(nums)", "type(nums)", "type(p)", "!p", "!nilP", "!nums", "!objs", "pObjs[?@]", "pObjs[?k > `1`].s", "objs[?abs(s)]", "objs[?k].abs(s)",
 	"objs[*].abs(s)", "nums[?@ > `1`]", "strs[?@ == 'a']", "p || nilP", "nilP || p", "nilP && p", "length(objs)", "reverse(objs)", "sort_by(objs, &k)", "max_by(objs, &k)", "map(&k, objs)", "to_array(nums)", "not_null(nilP, nums)",
+	"ports == `[80, 443]`", "nums == nums", "objs[0] == objs[1]", "nums[0] == `3`", "nums != strs", "[?k == `2`]", "any[?k == `2`]", "m.a == `[3,1,2]`", "any == any", "n == `-3.5`", "objs[?k >= `2`].s",
 	"objs[*].k", "ptr.p.s", "ptr.objs[*].s", "nums[0]", "gen | sort_by(@, &@)", "sort_by(gen, &@)", "reverse(gen)", "sort(gen)", "reverse(nums)", "to_string(ptr.p)",
 }
 
@@ -207,6 +275,9 @@ func (d DocSpec) Build() interface{} {
 		v, err := buildJSON(d.Text, d.CapSeed)
 		if err != nil {
 			panic(fmt.Sprintf("doc text does not decode: %v", err))
+		}
+		if d.GoNums != 0 {
+			v = goNums(v, d.GoNums)
 		}
 		return v
 	case "typed":
@@ -360,9 +431,10 @@ func deepCopy(v interface{}) interface{} { return deepCopyD(v, 0) }
 
 // maxDepth bounds every recursive walk of the harness: a defective library can hand
 // back a self-referential value, and a stack overflow cannot be recovered in Go.
-const maxDepth = 120
+// Legitimate values are as deep as the expressions that build them (the depth ladders go to 4101).
+const maxDepth = 6000
 
-const depthSentinel = "\x00<value nested deeper than 120 levels or cyclic>"
+const depthSentinel = "\x00<value nested deeper than 6000 levels or cyclic>"
 
 func deepCopyD(v interface{}, d int) interface{} {
 	if d > maxDepth {
